@@ -304,6 +304,10 @@ def run(ctx, res):
     n = prefix_constants(prog, res)
     ternary_offset_values(prog, res)
     uri_strip(prog, res, slots)
+    from .. import adopt
+    for fn_ in sorted({f for f, o in slots.get(("Storage", "set"), set()) if f.startswith("raw")}):
+        adopt.rule_set_adopts(prog, res, prog.func(fn_))
+    res.require_min("R-SET-ADOPTS", 1)
     res.require_min("CURSOR-SIM", 4)
     res.require_min("R-APPEND-ADVANCE", 1)
     res.require_min("R-WRITEALL", 4)
